@@ -440,3 +440,45 @@ def gamma5(tier, seed):
     T("reg/in_deref", [{"mov": ["&genreg.64"]}, {"add": [{"$deref": {"main_reg": "&genreg.64", "constant_offset": "0x8"}}]}], ["&genreg"], {"&genreg": list("abcd")}, "cap_register_in_deref", lemmas=("AEM",), domain="att_mem_regs")
     T("reg/first_in_deref", [{"mov": [{"$deref": {"main_reg": "&genreg.64", "register_multiplier": "&indreg.64", "constant_multiplier": 4}}]}, {"add": ["&genreg.32", "&indreg.16"]}], ["&genreg", "&indreg"], {"&genreg": list("abcd"), "&indreg": ["s", "d"]}, "cap_register_in_deref", lemmas=("AEM",), domain="att_mem_regs")
     return out
+
+
+# ------------------------------------------------------------------------------- C06
+def gamma6(tier, seed):
+    out = []
+    L = ("AEM", "EA", "NE", "VAL")
+    regs = [("%rax", "%rbx"), ("rax", "rbx"), ("%rbp", "r12")]
+    scales = [1, 2, 4, 8, "4", "1"] if tier == "thorough" else [1, 4, "8"]
+    disps = ["0x8", "8", "-0x8", "0x0", 0, 16, "0x7f", "10"] if tier == "thorough" else ["0x8", "8", "-0x8", "0x0", 0]
+    n = 0
+
+    def add(fields, pos, tag):
+        nonlocal n
+        d = {"$deref": dict(fields)}
+        ops = {"first": [d, "c"], "last": ["c", d], "only": [d]}[pos]
+        pat = [{"mov": ops}, "ret"]
+        n += 1
+        out.append({"id": f"g6/{tag}/{pos}/{n}/{fields}", "doc": doc_of(pat), "feature": "deref_" + tag, "domain": "att_mem", "lemmas": L})
+
+    for a, b in regs:
+        for pos in ("first", "last", "only"):
+            add({"main_reg": a}, pos, "base")
+            for k in disps:
+                add({"main_reg": a, "constant_offset": k}, pos, "base_disp")
+            for c in scales:
+                add({"main_reg": a, "register_multiplier": b, "constant_multiplier": c}, pos, "base_index")
+                for k in disps[:3]:
+                    add({"main_reg": a, "register_multiplier": b, "constant_multiplier": c, "constant_offset": k}, pos, "full")
+        # index without scale / scale without index: no objdump operand has these components
+        add({"main_reg": a, "register_multiplier": b}, "first", "index_only")
+        add({"main_reg": a, "constant_multiplier": 4}, "first", "scale_only")
+        add({"main_reg": a, "register_multiplier": b, "constant_offset": "0x8"}, "first", "index_only")
+    # full-match flags do not change $deref
+    out.append({"id": "g6/fm", "doc": doc_of([{"mov": [{"$deref": {"main_reg": "%rax", "constant_offset": "0x8"}}, "c"]}, "ret"], True, True), "feature": "deref_base_disp", "domain": "att_mem", "lemmas": L})
+    # field order in the YAML mapping is irrelevant
+    out.append({"id": "g6/order", "doc": doc_of([{"mov": [{"$deref": {"constant_offset": "0x8", "constant_multiplier": 4, "register_multiplier": "%rbx", "main_reg": "%rax"}}]}, "ret"]), "feature": "deref_full", "domain": "att_mem", "lemmas": L})
+    # two derefs in one instruction, and times on the deref operand's instruction
+    out.append({"id": "g6/two", "doc": doc_of([{"movs": [{"$deref": {"main_reg": "%rsi"}}, {"$deref": {"main_reg": "%rdi"}}]}, "ret"]), "feature": "deref_base", "domain": "att_mem", "lemmas": L})
+    for i, t in enumerate(out):
+        if i % 15 == 0:
+            with_twin(t, t["doc"]["pattern"])
+    return out
